@@ -10,7 +10,10 @@ The specification is THIN here and says so: a TLA+ model of /bin/sh would be fic
     parse into the specification's grammar (quoted delimiter, same tag, value
     verbatim), and is then executed by the real /bin/sh with a canary payload: the
     shell's variables must equal the configured values up to trailing newlines and
-    no canary file may appear.  Names that are not identifiers must be rejected."""
+    no canary file may appear.  Names that are not identifiers must be rejected.    One Environments object is also used the way a long-running application uses it: a value
+    is replaced (Set) while a start-up script is being built from the object (1001
+    variables); once both have returned, the next script must give the shell the value
+    that Get answers."""
 import json, os
 import vlib
 
@@ -45,4 +48,9 @@ def run(ctx):
     vlib.report_case_failures(ctx, m, 'env scripts')
     if m['executed'] == 0:
         raise vlib.Infra('nothing executed')
+    # one Environments object reused while scripts are being built from it, with a large environment
+    w = ctx.vh(['envwitness', '--rounds', '40' if q else '400', '--vars', '1000', '--tmp', dtmp], timeout=3000)
+    ctx.cov['replay'].append(dict(what='values replaced while scripts are being built (1001 variables); the next script must carry the value Get returns', executed=w['executed'], failures=w['failures_by_key']))
+    ctx.cov['evaluations'] += w['executed']
+    vlib.report_case_failures(ctx, w, 'reused environment')
     ctx.assumptions += ['/bin/sh of this image (dash); CANARYVAR is exported so that an expansion is visible in the value']
